@@ -88,10 +88,11 @@ impl Hash for Snapshot {
 
 /// Canonicalise values whose serialisation is not deterministic. The only such value in
 /// the code base is `incentive::Flow` (contains `HashMap<u64,Uint128>` fields, serialised
-/// in RandomState order). They are stored under the contract-storage key `flows`; every
+/// in RandomState order). They are stored under the contract-storage map `flows`; every
 /// reader accesses the maps by key, so re-serialising with sorted keys is sound.
 fn canon_value<F: FnOnce(&[u8])>(k: &[u8], v: &[u8], f: F) {
-    if k.ends_with(b"flows") && v.first() == Some(&b'[') {
+    const NS: &[u8] = b"\x00\x05flows";
+    if v.first() == Some(&b'{') && k.windows(NS.len()).any(|w| w == NS) && v.windows(14).any(|w| w == b"emitted_tokens") {
         if let Ok(val) = serde_json::from_slice::<serde_json::Value>(v) {
             // serde_json::Value objects are BTreeMaps (no preserve_order feature) → sorted.
             let s = serde_json::to_vec(&val).unwrap();
